@@ -19,6 +19,10 @@ def run(tier, seed):
     g = gen.Gen(seed * 7919 + 12)
     progs = [g.program({"nstrat": g.rng.choice([0, 1, 2, 2, 3]), "p_post": 0.5, "shuffle_comps": 0.5,
                         "h": g.rng.choice(["1", "1/2", "1/4", "2", "3/8", "3/2"])}) for _ in range(n)]
+    for i_, p in enumerate(progs):
+        if i_ % 3 == 0 and any(o["op"] == "strat" for o in p["ops"]):
+            # the Stratification objects of this model are also applied to a second model with another layout before it runs
+            p["shared_strats"] = True
     progs.append(dict(COLLISION))
     for p in progs:
         pv = g.params_values(small=True)
@@ -47,7 +51,8 @@ def run(tier, seed):
             else:
                 variant = None
         p["obs"] = [{"obs": "struct"}, {"obs": "initpop", "params": pv},
-                    {"obs": "oracle", "name": "c12", "params": pv, "times": p["times"], "dist": dist_, "variant_program": variant}]
+                    {"obs": "oracle", "name": "c12", "params": pv, "times": p["times"], "dist": dist_, "variant_program": variant,
+                     "program": checklib.strip_meta(dict(p, obs=[])) if p.get("shared_strats") else None}]
     progs.append(carrier([{"obs": "oracle", "name": "c12_dates", "seed": seed, "n": 20 if tier == "quick" else 300}]))
     progs.append(carrier([{"obs": "oracle", "name": "c12_grid", "seed": seed, "n": 40 if tier == "quick" else 600}]))
     # the collision probe is compared on the implementation only (the model identifies compartments
@@ -58,7 +63,7 @@ def run(tier, seed):
         if a.get("build_error") is None and a.get("obs") and any(o["op"] == "strat" for o in p["ops"]):
             nontrivial.add(checklib.signature(p))
     return {"programs": progs, "explore": ex, "distinct_nontrivial": len(nontrivial),
-            "rule": "build programs with 0-3 full/partial stratifications and post-stratification flow additions, non-unit "
+            "rule": "build programs with 0-3 full/partial stratifications (a third of them with Stratification objects that are also applied to a second model of another layout before the run) and post-stratification flow additions, non-unit "
                     "and non-integer timesteps, non-zero start times; compartment list, flow endpoints, number of times and "
                     "initial population compared with the model; on the implementation: times grid, outputs shape, endpoint "
                     "indices, data-frame labels, row 0, distinct names; 20/300 random reference dates for the date labels and "
